@@ -631,24 +631,24 @@ def selections(ctx, body, action, arg_index):
         if not acting:
             continue
         el = tables.exists_loop(body, h)
-        s = Selection()
-        s.form, s.header = "loop", h
-        s.iter_term = el.iter_term
-        s.acts = len(acting)
-        ok_leave = True
+        group = []
         for p in acting:
+            s = Selection()
+            s.form, s.header = "loop", h
+            s.iter_term = el.iter_term
+            s.acts = len(acting)
             calls = [e for e in p.events if e.kind == "call" and e.a == action]
             if len(calls) != 1:
                 s.problems.append("%d calls of the action on one path" % len(calls))
+                group.append(s)
                 continue
             ci = p.events.index(calls[0])
             s.site = calls[0].span
             s.chosen = mir.strip(calls[0].b[arg_index])
             s.elem = s.chosen
             s.pred = [(e.a, e.b) for e in p.events[:ci] if e.kind == "guard" and not (isinstance(e.a, tuple) and e.a[0] == "variantof" and isinstance(e.a[1], tuple) and e.a[1][0] == "next")]
-            if p.outcome == ("backedge", h):
-                ok_leave = False
-        s.leaves_scan = ok_leave
+            s.leaves_scan = p.outcome != ("backedge", h)
+            group.append(s)
         quiet = True
         for p in paths:
             if p in acting or p.outcome != ("backedge", h):
@@ -657,8 +657,9 @@ def selections(ctx, body, action, arg_index):
                 # a call that receives `&mut` on a continuing path (other than stepping the iterator)
                 if [e for e in p.events if e.kind == "call" and e.d and mir.method_name(e.a) not in ("next", "next_back")] or [e for e in p.events if e.kind == "store"]:
                     quiet = False
-        s.skips_quietly = quiet
-        out.append(s)
+        for s in group:
+            s.skips_quietly = quiet
+            out.append(s)
     # (2) find(): the action is called with the payload of a find() result
     for p in mir.walk_function(body):
         for e in p.events:
